@@ -62,6 +62,55 @@ ReachClauses(g, orc, p) ==
                                 /\ ~FixLeqTol(orc.rvf[s], Fx(p[s]), orc.tol[s] + 2)}}
             ELSE {})
 
+-----------------------------------------------------------------------------
+(* Bellman consistency (C01 / C02 at sizes without exact values): the      *)
+(* reported vector is a fixed point of the max / min / weighted-average     *)
+(* equations up to the threshold.  Arithmetic in integer units u per 1      *)
+(* (10^6 where it fits in 32 bits, coarser otherwise); a probabilistic row  *)
+(* w_t / W is reduced to p_t / q first.                                     *)
+Units(v, u) == v.i * u + (v.f \div (Nano \div u))
+
+RECURSIVE GcdRow(_, _, _)
+GcdRow(row, k, acc) == IF k = 0 THEN acc ELSE GcdRow(row, k - 1, GCD(acc, row[k].w))
+
+\* residual of one state in units u: 0 means "consistent"; -1 means "skipped (would overflow)"
+\* val: function state -> observed number; own: what the state itself adds (0 or its reward)
+BellmanBad(owner, row, val, xs, own, maxI) ==
+    LET n == Len(row)
+    IN  IF n = 0 THEN 0
+        ELSE IF owner = PR
+        THEN LET W == SumW(row, n)
+                 gg == GcdRow(row, n, W)
+                 q == W \div gg
+                 u == IF q * (maxI + 2) < 2000 THEN 1000000
+                      ELSE IF q * (maxI + 2) < 200000 THEN 10000
+                      ELSE IF q * (maxI + 2) < 2000000 THEN 1000 ELSE 0
+             IN  IF u = 0 THEN -1
+                 ELSE LET lhs == q * (Units(xs, u) - own * u)
+                          rhs == SumTo([k \in 1..n |-> (row[k].w \div gg) * Units(val[row[k].t], u)], n)
+                          tol == 3 * q + 1 + (q * u) \div 1000000
+                      IN  IF Abs(lhs - rhs) <= tol THEN 0 ELSE 1
+        ELSE LET u == IF maxI + 2 < 2000 THEN 1000000 ELSE 1000
+                 vs == {Units(val[row[k].t], u) : k \in 1..n}
+                 opt == IF owner = P1 THEN CHOOSE x \in vs : \A y \in vs : y <= x
+                        ELSE CHOOSE x \in vs : \A y \in vs : x <= y
+             IN  IF Abs(Units(xs, u) - own * u - opt) <= 2 + u \div 1000000 THEN 0 ELSE 1
+
+MaxInt(val, D) == LET S == {val[s].i : s \in D} IN IF S = {} THEN 0 ELSE CHOOSE m \in S : \A x \in S : x <= m
+
+BellmanReach(g, p) ==
+    IF Len(p) # g.n \/ \E s \in 1..g.n : p[s].k # "ok" THEN {}
+    ELSE LET Can == BackReach(g, FinalSet(g))
+             bad(s) == BellmanBad(g.owner[s], g.tr[s], p, p[s], 0, 1)
+         IN  {"C01.Bellman s=" \o S2(s) : s \in {s \in Can \ FinalSet(g) : bad(s) = 1}}
+
+BellmanReward(Gc, Dom, rew) ==
+    IF Len(rew) # Gc.n \/ \E s \in Dom : rew[s].k # "ok" THEN {}
+    ELSE LET mi == MaxInt(rew, Dom)
+             bad(s) == IF Len(Gc.tr[s]) = 0 THEN (IF rew[s].z THEN 0 ELSE 1)
+                       ELSE BellmanBad(Gc.owner[s], Gc.tr[s], rew, rew[s], Gc.reward[s], mi)
+         IN  {"C02.Bellman s=" \o S2(s) : s \in {s \in Dom : bad(s) = 1}}
+
 \* strategies: shape (None on probabilistic states, a sub-list in transition
 \* order on player states)
 ShapeClauses(g, st, tag, rows) ==
